@@ -7,7 +7,8 @@
 //! diverging event and the return address of its callback are logged so that the driver can symbolise
 //! the site.
 #![allow(static_mut_refs)]
-use crypto_bigint::modular::{BoxedMontyForm, BoxedMontyParams, MontyForm, MontyParams};
+use crypto_bigint::modular::{BoxedMontyForm, BoxedMontyParams, ConstMontyForm, MontyForm, MontyParams};
+crypto_bigint::impl_modulus!(P256N, U256, "ffffffff00000000ffffffffffffffffbce6faada7179e84f3b9cac2fc632551");
 use crypto_bigint::subtle::{ConditionallySelectable, ConstantTimeEq, ConstantTimeGreater, ConstantTimeLess, CtOption};
 use crypto_bigint::*;
 use std::alloc::{GlobalAlloc, Layout, System};
@@ -41,6 +42,10 @@ st!(__sanitizer_cov_store1, __sanitizer_cov_store2, __sanitizer_cov_store4, __sa
 #[unsafe(no_mangle)] #[inline(never)] pub extern "C" fn __sanitizer_cov_trace_div4(a: u32) { let r = ra!(); ev(4, a as u64, r); }
 #[unsafe(no_mangle)] #[inline(never)] pub extern "C" fn __sanitizer_cov_trace_div8(a: u64) { let r = ra!(); ev(4, a, r); }
 #[unsafe(no_mangle)] #[inline(never)] pub extern "C" fn __sanitizer_cov_trace_gep(a: usize) { let r = ra!(); ev(5, a as u64, r); }
+
+// ---- markers for the machine-level cross-check (valgrind lackey on the uninstrumented build) ------------
+#[inline(never)] #[unsafe(no_mangle)] pub extern "C" fn lk_marker_begin() { unsafe { core::arch::asm!("nop") } }
+#[inline(never)] #[unsafe(no_mangle)] pub extern "C" fn lk_marker_end() { unsafe { core::arch::asm!("nop", "nop", "nop") } }
 
 // ---- bump arena: heap addresses inside a run depend only on the (public) allocation sizes -------------
 const ARENA: usize = 64 << 20;
@@ -234,6 +239,53 @@ fn registry() -> Vec<Op> {
         op!("boxedmonty.mul", true, true, |i| { let p = BoxedMontyParams::new_vartime(oddbm(i)); foldb((BoxedMontyForm::new(i.ba.clone(), p.clone()) * BoxedMontyForm::new(i.bb.clone(), p)).as_montgomery()) }),
         op!("boxedmonty.add_sub_neg", true, true, |i| { let p = BoxedMontyParams::new_vartime(oddbm(i)); let (x, y) = (BoxedMontyForm::new(i.ba.clone(), p.clone()), BoxedMontyForm::new(i.bb.clone(), p)); foldb((-(&x + &y) - &y).as_montgomery()) }),
         op!("boxedmonty.pow(secret exponent)", true, true, |i| { let p = BoxedMontyParams::new_vartime(oddbm(i)); foldb(BoxedMontyForm::new(i.ba.clone(), p).pow(&i.bb).as_montgomery()) }),
+        // --- signed integers (two's-complement view of the same operands)
+        op!("int.checked_add", true, true, |i| fold(CtOption::from(i.a.as_int().checked_add(&i.b.as_int())).unwrap_or(I256::ZERO).as_uint())),
+        op!("int.checked_sub", true, true, |i| fold(CtOption::from(i.a.as_int().checked_sub(&i.b.as_int())).unwrap_or(I256::ZERO).as_uint())),
+        op!("int.checked_mul", true, true, |i| fold(CtOption::from(i.a.as_int().checked_mul(&i.b.as_int())).unwrap_or(I256::ZERO).as_uint())),
+        op!("int.widening_mul", true, true, |i| { let w: I512 = i.a.as_int().widening_mul(&i.b.as_int()); foldw(w.as_uint()) }),
+        op!("int.checked_neg", true, true, |i| fold(CtOption::from(i.a.as_int().checked_neg()).unwrap_or(I256::ZERO).as_uint())),
+        op!("int.checked_div", true, true, |i| fold(i.a.as_int().checked_div(&i.b.as_int()).unwrap_or(I256::ZERO).as_uint())),
+        op!("int.checked_div_rem", true, true, |i| { let d = CtOption::from(i.b.bitor(&U::ONE).as_int().to_nz()).unwrap_or(NonZero::<I256>::ONE); let (q, r) = i.a.as_int().checked_div_rem(&d); fold(CtOption::from(q).unwrap_or(I256::ZERO).as_uint()) ^ fold(r.as_uint()) }),
+        op!("int.checked_div_rem_floor", true, true, |i| { let d = CtOption::from(i.b.bitor(&U::ONE).as_int().to_nz()).unwrap_or(NonZero::<I256>::ONE); let (q, r) = i.a.as_int().checked_div_rem_floor(&d); fold(CtOption::from(q).unwrap_or(I256::ZERO).as_uint()) ^ fold(r.as_uint()) }),
+        op!("int.div_rem_uint", true, true, |i| { let d = NonZero::new(i.b.bitor(&U::ONE)).unwrap(); let (q, r) = i.a.as_int().div_rem_uint(&d); fold(q.as_uint()) ^ fold(r.as_uint()) }),
+        op!("int.new_from_abs_sign", true, true, |i| fold(CtOption::from(I256::new_from_abs_sign(i.a, Integer::is_odd(&i.b).into())).unwrap_or(I256::ZERO).as_uint())),
+        op!("int.resize", true, true, |i| { let w: I512 = i.a.as_int().resize(); let n: I128 = i.b.as_int().resize(); w.as_uint().as_words()[7] ^ n.as_uint().as_words()[1] }),
+        op!("int.is_min_max", true, true, |i| foldc(i.a.as_int().is_min().into()) ^ foldc(i.a.as_int().is_max().into()) ^ foldc(i.a.as_int().is_negative().into())),
+        // --- one- and two-limb widths (code that special-cases LIMBS == 1 or runs without Karatsuba)
+        op!("u64.div_rem", true, true, |i| { let (x, y) = (U64::from_u64(i.a.as_words()[0]), U64::from_u64(i.b.as_words()[0] | 1)); let (q, r) = x.div_rem(&NonZero::new(y).unwrap()); q.as_words()[0] ^ r.as_words()[0] }),
+        op!("u64.mul_mod_special", true, true, |i| { let (x, y) = (U64::from_u64(i.a.as_words()[0]), U64::from_u64(i.b.as_words()[0])); x.mul_mod_special(&y, Limb(59)).as_words()[0] }),
+        op!("u64.sqrt", true, true, |i| U64::from_u64(i.a.as_words()[0]).sqrt().as_words()[0] & 0xffff_ffff_ffff_fffe),
+        op!("u128.split_mul", true, true, |i| { let (x, y) = (U128::from_words([i.a.as_words()[0], i.a.as_words()[1]]), U128::from_words([i.b.as_words()[0], i.b.as_words()[1]])); let (l, h) = x.split_mul(&y); foldw(&l) ^ foldw(&h) }),
+        op!("u128.div_rem", true, true, |i| { let (x, y) = (U128::from_words([i.a.as_words()[0], i.a.as_words()[1]]), U128::from_words([i.b.as_words()[0] | 1, i.b.as_words()[1]])); let (q, r) = x.div_rem(&NonZero::new(y).unwrap()); foldw(&q) ^ foldw(&r) }),
+        op!("u128.add_mod_sub_mod", true, true, |i| { let m = U128::from_words([i.m.as_words()[0], i.m.as_words()[1] | (1 << 63)]); let nz = NonZero::new(m).unwrap(); let (x, y) = (U128::from_words([i.a.as_words()[0], i.a.as_words()[1]]).rem_vartime(&nz), U128::from_words([i.b.as_words()[0], i.b.as_words()[1]]).rem_vartime(&nz)); foldw(&x.add_mod(&y, &m)) ^ foldw(&x.sub_mod(&y, &m)) }),
+        op!("u128.shl_shr(secret amount)", true, true, |i| { let x = U128::from_words([i.a.as_words()[0], i.a.as_words()[1]]); let s = (i.b.as_words()[0] % 128) as u32; foldw(&x.shl(s)) ^ foldw(&x.shr(s)) }),
+        // --- compile-time Montgomery form (NIST P-256 order)
+        op!("constmonty.new+retrieve", true, true, |i| fold(&ConstMontyForm::<P256N, 4>::new(&i.a).retrieve())),
+        op!("constmonty.add_sub_neg", true, true, |i| { let (x, y) = (ConstMontyForm::<P256N, 4>::new(&i.a), ConstMontyForm::<P256N, 4>::new(&i.b)); fold((-(x + y) - y).as_montgomery()) }),
+        op!("constmonty.mul_square", true, true, |i| { let (x, y) = (ConstMontyForm::<P256N, 4>::new(&i.a), ConstMontyForm::<P256N, 4>::new(&i.b)); fold((x * y).square().as_montgomery()) }),
+        op!("constmonty.pow(secret exponent)", true, true, |i| fold(ConstMontyForm::<P256N, 4>::new(&i.a).pow(&i.b).as_montgomery())),
+        op!("constmonty.div_by_2", true, true, |i| fold(ConstMontyForm::<P256N, 4>::new(&i.a).div_by_2().as_montgomery())),
+        // --- more boxed operations
+        op!("boxed.bitops", true, true, |i| foldb(&i.ba.bitand(&i.bb).bitor(&i.ba.bitxor(&i.bb)).not())),
+        op!("boxed.wrapping_neg", true, true, |i| foldb(&i.ba.wrapping_neg())),
+        op!("boxed.widen_shorten", true, true, |i| foldb(&i.ba.widen(512)) ^ foldb(&i.bb.shorten(128))),
+        op!("boxed.is_zero_is_odd", true, true, |i| foldc(i.ba.is_zero()) ^ foldc(Integer::is_odd(&i.bb)) ^ foldc(i.ba.is_one())),
+        op!("boxed.mul_mod_special", true, true, |i| foldb(&i.ba.mul_mod_special(&i.bb, Limb(189)))),
+        op!("boxed.sub_mod_special", true, true, |i| foldb(&i.ba.sub_mod_special(&i.bb, Limb(189)))),
+        op!("boxed.double_mod", true, true, |i| foldb(&i.ba.double_mod(&i.bm))),
+        op!("boxed.adc_sbb", true, true, |i| { let (x, c) = i.ba.adc(&i.bb, Limb::ONE); let (y, d) = i.ba.sbb(&i.bb, Limb::ZERO); foldb(&x) ^ foldb(&y) ^ c.0 ^ d.0 }),
+        op!("boxed.checked_add_mul", true, true, |i| foldc(i.ba.checked_add(&i.bb).is_some()) ^ foldc(i.ba.checked_mul(&i.bb).is_some())),
+        op!("boxed.rem_vartime(public modulus)", true, true, |i| foldb(&i.ba.rem_vartime(&nzbm(i)))),
+        op!("boxed.rem_limb", true, true, |i| { let d = NonZero::new(Limb(i.b.as_words()[0] | 1)).unwrap(); i.ba.rem_limb(d).0 }),
+        op!("boxed.from_to_le_bytes", true, true, |i| { let b = i.ba.to_le_bytes(); b.iter().fold(0u64, |h, x| h.rotate_left(3) ^ *x as u64) }),
+        op!("boxedmonty.square_div_by_2", true, true, |i| { let p = BoxedMontyParams::new_vartime(oddbm(i)); let x = BoxedMontyForm::new(i.ba.clone(), p); foldb(x.square().div_by_2().as_montgomery()) }),
+        op!("boxedmonty.retrieve", true, true, |i| { let p = BoxedMontyParams::new_vartime(oddbm(i)); foldb(&BoxedMontyForm::new(i.ba.clone(), p).retrieve()) }),
+        // --- limb level
+        op!("limb.arith", true, true, |i| { let (x, y) = (Limb(i.a.as_words()[0]), Limb(i.b.as_words()[0])); x.wrapping_add(y).0 ^ x.wrapping_sub(y).0 ^ x.wrapping_mul(y).0 ^ x.saturating_add(y).0 ^ x.saturating_mul(y).0 }),
+        op!("limb.adc_sbb", true, true, |i| { let (x, y) = (Limb(i.a.as_words()[0]), Limb(i.b.as_words()[0])); let (s, c) = x.adc(y, Limb(i.a.as_words()[1])); let (d, bw) = x.sbb(y, Limb(i.b.as_words()[1])); s.0 ^ c.0 ^ d.0 ^ bw.0 }),
+        op!("limb.ct_cmp", true, true, |i| { let (x, y) = (Limb(i.a.as_words()[0]), Limb(i.b.as_words()[0])); foldc(x.ct_eq(&y)) ^ foldc(x.ct_gt(&y)) ^ (x.cmp(&y) as i8 as u64) ^ foldc(x.is_zero()) }),
+        op!("limb.bits", true, true, |i| { let x = Limb(i.a.as_words()[0]); (x.bits() ^ x.leading_zeros() ^ x.trailing_zeros()) as u64 }),
         // --- wide operands: every Karatsuba level of the fixed dispatch, boxed Karatsuba with trailing limbs
         op!("uint1024.split_mul", true, true, |i| { let (l, h) = i.wa.split_mul(&i.wb); foldw(&l) ^ foldw(&h) }),
         op!("uint1024.wrapping_mul", true, true, |i| foldw(&i.wa.wrapping_mul(&i.wb))),
@@ -294,7 +346,9 @@ fn run_once(f: fn(&In) -> u64, a: U, b: U, m: U, s: u32) -> (u64, usize) {
                    m1: BoxedUint::from_words([m1w]) };
     unsafe { INP = Some(inp); DIG = 0xcbf2_9ce4_8422_2325; LEN = 0; }
     ON.store(true, Relaxed);
+    lk_marker_begin();
     let r = f(unsafe { INP.as_ref().unwrap() });
+    lk_marker_end();
     ON.store(false, Relaxed);
     unsafe { SINK ^= r; INP = None; }
     ARENA_ON.store(false, Relaxed);
@@ -304,8 +358,10 @@ fn run_once(f: fn(&In) -> u64, a: U, b: U, m: U, s: u32) -> (u64, usize) {
 fn main() {
     let args: Vec<String> = std::env::args().collect();
     let mut out_path = String::new(); let mut seed = 1u64; let mut nsec = 28usize; let mut only: Option<String> = None;
+    let mut one: Option<(String, usize)> = None;       // --one <class> <secret index>: run exactly that run (machine-level cross-check)
     let mut i = 1;
-    while i < args.len() { match args[i].as_str() { "--out" => { out_path = args[i + 1].clone(); i += 1 } "--seed" => { seed = args[i + 1].parse().unwrap(); i += 1 } "--secrets" => { nsec = args[i + 1].parse().unwrap(); i += 1 } "--only" => { only = Some(args[i + 1].clone()); i += 1 } "--tier" => { i += 1 } _ => {} } i += 1; }
+    while i < args.len() { match args[i].as_str() { "--out" => { out_path = args[i + 1].clone(); i += 1 } "--seed" => { seed = args[i + 1].parse().unwrap(); i += 1 } "--secrets" => { nsec = args[i + 1].parse().unwrap(); i += 1 } "--only" => { only = Some(args[i + 1].clone()); i += 1 } "--one" => { one = Some((args[i + 1].clone(), args[i + 2].parse().unwrap())); i += 2 } "--tier" => { i += 1 } _ => {} } i += 1; }
+    if one.is_some() && out_path.is_empty() { out_path = "/dev/null".to_string(); }
     let mut out = std::io::BufWriter::new(std::fs::File::create(&out_path).expect("out"));
     let mut r = Rng(seed ^ 0x1234_5678);
     let ops = registry();
@@ -321,7 +377,9 @@ fn main() {
             let (pa, pb) = secs[(ci * 5 + 1) % secs.len()];
             let cls = format!("{}#{}", op.name, ci);
             let mut first: Option<(u64, usize, Vec<(u8, u64, u64)>)> = None;
+            if let Some((c1, _)) = &one { if *c1 != cls { continue; } }
             for (si, (sa, sb)) in secs.iter().enumerate() {
+                if let Some((_, s1)) = &one { if *s1 != si { continue; } }
                 let mut a = if op.secret_a { *sa } else { pa };
                 let mut b = if op.secret_b { *sb } else { pb };
                 // operations on residues get residues: reduce in a way that does not touch the recorded region
